@@ -410,7 +410,7 @@ pub fn check(tier: Tier) -> i32 {
 	// moved past the checkpoint's sequence number by the time of the restore
 	surrealkv::verif::set_gc_interval(2);
 	let mut report = Report::new("C14", tier, "model_checking");
-	let budget = Budget::new(if tier == Tier::Quick { 50.0 } else { 600.0 });
+	let budget = Budget::new(if tier == Tier::Quick { 38.0 } else { 600.0 });
 	let (m, p) = if tier == Tier::Quick { (2, 3) } else { (3, 3) };
 	let mid_alpha = vec![Cop::W(Kind::Set, b"a"), Cop::W(Kind::Delete, b"b"), Cop::F, Cop::C, Cop::R];
 	let post_alpha = vec![Cop::W(Kind::Set, b"a"), Cop::W(Kind::Set, b"b"), Cop::F, Cop::C, Cop::O, Cop::B];
@@ -479,7 +479,7 @@ pub fn check(tier: Tier) -> i32 {
 	// two checkpoints, two restores
 	{
 		let c2 = cases2(tier);
-		let b2 = Budget::new(if tier == Tier::Quick { 12.0 } else { 200.0 });
+		let b2 = Budget::new(if tier == Tier::Quick { 10.0 } else { 200.0 });
 		for opt in option_sets(tier) {
 			let found: Mutex<Vec<(usize, String, String)>> = Mutex::new(vec![]);
 			let done = std::sync::atomic::AtomicU64::new(0);
@@ -548,7 +548,7 @@ pub fn check(tier: Tier) -> i32 {
 	report.assume("conflict-oracle GC interval forced to 2 (hook) so that pruning happens between checkpoint and restore");
 	// schedule part: a checkpoint taken (no commit in flight) while a compaction round and a
 	// background flush are running; the checkpoint is then opened on its own
-	let code = crate::props::sched::run_into(&mut report, "C14", tier, if tier == Tier::Quick { 10.0 } else { 200.0 });
+	let code = crate::props::sched::run_into(&mut report, "C14", tier, if tier == Tier::Quick { 8.0 } else { 200.0 });
 	if code != 0 {
 		return code;
 	}
